@@ -120,6 +120,24 @@ def poly_of_function(fn, keys, symbols):
                 return None
         elif k == 'NullStmt':
             continue
+        elif _no_effect(s):
+            continue                        # assert(..) under NDEBUG, (void)0, a discarded side-effect-free expression
         else:
             return None
     return result
+
+
+def _no_effect(s):
+    from .frontend import walk
+    for x in walk(s):
+        k = x.get('kind')
+        if k in ('CallExpr', 'CXXMemberCallExpr', 'CXXOperatorCallExpr', 'CXXConstructExpr', 'CompoundAssignOperator', 'CXXNewExpr',
+                 'CXXDeleteExpr', 'LambdaExpr', 'DeclStmt', 'ReturnStmt', 'IfStmt', 'ForStmt', 'WhileStmt', 'DoStmt', 'SwitchStmt',
+                 'CXXThrowExpr', 'BreakStmt', 'ContinueStmt', 'GotoStmt'):
+            return False
+        if k == 'UnaryOperator' and x.get('opcode') in ('++', '--'):
+            return False
+        if k == 'BinaryOperator' and (x.get('opcode') == '=' or (x.get('opcode', '').endswith('=') and
+                                                                  x.get('opcode') not in ('==', '!=', '<=', '>='))):
+            return False
+    return True
